@@ -9,6 +9,7 @@ package main
 // (Format and friends are concrete-only).
 
 import (
+	"fmt"
 	"go/types"
 	"math/big"
 	"time"
@@ -238,6 +239,17 @@ func (in *Interp) registerTime(reg func(string, extFn)) {
 	reg("(time.Duration).String", func(in *Interp, fr *frame, fn *ssa.Function, args []Value) Value {
 		d := in.concTerm(args[0], "Duration.String")
 		return Str{S: time.Duration(d.Int()).String()}
+	})
+	reg("time.FixedZone", func(in *Interp, fr *frame, fn *ssa.Function, args []Value) Value {
+		name := in.goString(args[0], "time.FixedZone")
+		off := in.concTerm(args[1], "time.FixedZone")
+		key := fmt.Sprintf("%s/%d", name, off.Int())
+		if n, ok := in.fixedZones[key]; ok {
+			return n
+		}
+		n := in.locNative(time.FixedZone(name, int(off.Int())))
+		in.fixedZones[key] = n
+		return n
 	})
 	reg("time.Now", func(in *Interp, fr *frame, fn *ssa.Function, args []Value) Value {
 		in.unsupported("time.Now (nondeterministic clock) called")
